@@ -95,9 +95,9 @@ Theorem C16_cfg_wf : forall cap poll_ as_code_, wf_cfg (mk_cfg cap poll_ as_code
 Proof. exact wf_mk_cfg. Qed.
 
 Theorem C16_capacity_arith :
-  forallb (fun cap => (max_capacity cap <=? cap + 1) && (cap <=? max_capacity cap) && (window_capacity cap <=? cap))
-          (map N.of_nat (seq 0 2049)) = true.
-Proof. exact max_capacity_le. Qed.
+  forall cap, In cap (map N.of_nat (seq 0 2049)) ->
+    max_capacity cap <= cap + 1 /\ cap <= max_capacity cap /\ window_capacity cap <= cap.
+Proof. exact capacity_arith. Qed.
 
 (** (e) is FALSE for the code as it was: capacity 4, Notify, the exact sketch *)
 Theorem C16_total_refuted :
